@@ -166,6 +166,26 @@ func checkErrPath(c errCase) *vk.Failure {
 			res = vk.Call(func() { cat.Reweight(c.BadIdx, -float64(c.BadW[0])-0.5) })
 		case "reweight-index":
 			res = vk.Call(func() { cat.Reweight(c.BadIdx, 1) })
+		case "reweightall-zero-total":
+			// the argument check "sum of the weights non-positive"
+			res = vk.Call(func() { cat.ReweightAll(make([]float64, n)) })
+		case "reweight-zero-total":
+			// valid calls leave a single positive weight; removing it is rejected
+			last := -1
+			for i, v := range model {
+				if v > 0 {
+					last = i
+				}
+			}
+			for i, v := range model {
+				if v > 0 && i != last {
+					cat.Reweight(i, 0)
+					model = append([]float64(nil), model...)
+					model[i] = 0
+				}
+			}
+			before = snapshot()
+			res = vk.Call(func() { cat.Reweight(last, 0) })
 		}
 		if res.Outcome == vk.Returned {
 			F("rejected-call-returned", "the call returned instead of panicking")
@@ -176,11 +196,11 @@ func checkErrPath(c errCase) *vk.Failure {
 		}
 		var after []float64
 		if r := vk.Call(func() { after = snapshot() }); r.Outcome != vk.Returned {
-			F("state-changed-by-rejected-call", "after the recovered panic (%s) using the distribution ends in %v: %s", res.Text, r.Outcome, r.Text)
+			F("state-changed-by-"+c.Bad, "after the recovered panic (%s) using the distribution ends in %v: %s", res.Text, r.Outcome, r.Text)
 			return fs.pick(c.S1)
 		}
 		if i, ok := sameSnap(before, after); !ok {
-			F("state-changed-by-rejected-call", "after the recovered panic (%s) the distribution differs from what it was before the call (observable %d: %v -> %v; observables are Len, Mean, Entropy, then Prob/LogProb/CDF/CDF(+.5) for k=-1..n, then 64 draws)", res.Text, i, before[min(max(i, 0), len(before)-1)], after[min(max(i, 0), len(after)-1)])
+			F("state-changed-by-"+c.Bad, "after the recovered panic (%s) the distribution differs from what it was before the call (observable %d: %v -> %v; observables are Len, Mean, Entropy, then Prob/LogProb/CDF/CDF(+.5) for k=-1..n, then 64 draws)", res.Text, i, before[min(max(i, 0), len(before)-1)], after[min(max(i, 0), len(after)-1)])
 		}
 		// the law of the current (old) weights
 		tot, sum := 0.0, 0.0
@@ -261,7 +281,7 @@ func checkErrPath(c errCase) *vk.Failure {
 			F("rejected-call-faults", "runtime fault instead of the documented panic: %s", res.Text)
 		}
 		if a.Len() != n {
-			F("state-changed-by-rejected-call", "Len()=%d after the recovered panic", a.Len())
+			F("state-changed-by-"+c.Bad, "Len()=%d after the recovered panic", a.Len())
 		}
 		// law of the next Take under the current weights: take and put back
 		tot := 0.0
@@ -292,7 +312,7 @@ func checkErrPath(c errCase) *vk.Failure {
 			ia, oka := a.Take()
 			ib, okb := b.Take()
 			if ia != ib || oka != okb {
-				F("state-changed-by-rejected-call", "after the recovered panic (%s), draining with the same seed gives (%d,%v) at step %d; the twin that never received the call gives (%d,%v)", res.Text, ia, oka, k, ib, okb)
+				F("state-changed-by-"+c.Bad, "after the recovered panic (%s), draining with the same seed gives (%d,%v) at step %d; the twin that never received the call gives (%d,%v)", res.Text, ia, oka, k, ib, okb)
 				break
 			}
 		}
@@ -315,7 +335,7 @@ func checkErrPath(c errCase) *vk.Failure {
 			fs.add(vk.MustPanic("ParamUpdate-setmean-length-must-panic", func() { nrm.SetMean(make([]float64, d+1)) }))
 			fs.add(vk.MustPanic("ParamUpdate-setmean-length-must-panic", func() { nrm.SetMean(make([]float64, d-1)) }))
 			if i, ok := sameSnap(before, snap()); !ok {
-				F("state-changed-by-rejected-call", "distmv.Normal differs after a recovered SetMean length panic (observable %d)", i)
+				F("state-changed-by-"+c.Bad, "distmv.Normal differs after a recovered SetMean length panic (observable %d)", i)
 			}
 		case "conjugate-length":
 			nm := distuv.Normal{Mu: x[0], Sigma: 1 + math.Abs(x[1])}
@@ -323,14 +343,14 @@ func checkErrPath(c errCase) *vk.Failure {
 			fs.add(vk.MustPanic("ParamUpdate-normal-conjugate-length-must-panic", func() { nm.ConjugateUpdate([]float64{1}, 4, ps) }))
 			fs.add(vk.MustPanic("ParamUpdate-normal-conjugate-length-must-panic", func() { nm.ConjugateUpdate([]float64{1, 2}, 4, []float64{1, 2, 3}) }))
 			if nm.Mu != x[0] || nm.Sigma != 1+math.Abs(x[1]) || ps[0] != 2 || ps[1] != 3 {
-				F("state-changed-by-rejected-call", "Normal %+v strength %v after a recovered ConjugateUpdate length panic", nm, ps)
+				F("state-changed-by-"+c.Bad, "Normal %+v strength %v after a recovered ConjugateUpdate length panic", nm, ps)
 			}
 			ex := distuv.Exponential{Rate: 1 + math.Abs(x[0])}
 			pe := []float64{2}
 			fs.add(vk.MustPanic("ParamUpdate-exponential-conjugate-length-must-panic", func() { ex.ConjugateUpdate([]float64{1, 2}, 4, pe) }))
 			fs.add(vk.MustPanic("ParamUpdate-exponential-conjugate-length-must-panic", func() { ex.ConjugateUpdate([]float64{1}, 4, []float64{1, 2}) }))
 			if ex.Rate != 1+math.Abs(x[0]) || pe[0] != 2 {
-				F("state-changed-by-rejected-call", "Exponential %+v strength %v after a recovered ConjugateUpdate length panic", ex, pe)
+				F("state-changed-by-"+c.Bad, "Exponential %+v strength %v after a recovered ConjugateUpdate length panic", ex, pe)
 			}
 		case "fit-length":
 			nm := distuv.Normal{Mu: x[0], Sigma: 2}
@@ -341,7 +361,7 @@ func checkErrPath(c errCase) *vk.Failure {
 			fs.add(vk.MustPanic("ParamUpdate-exponential-fit-length-must-panic", func() { ex.Fit(x, bad) }))
 			fs.add(vk.MustPanic("ParamUpdate-laplace-fit-length-must-panic", func() { lp.Fit(x, bad) }))
 			if nm.Mu != x[0] || nm.Sigma != 2 || ex.Rate != 3 || lp.Mu != x[0] || lp.Scale != 2 {
-				F("state-changed-by-rejected-call", "parameters changed by a Fit that panicked: %+v %+v %+v", nm, ex, lp)
+				F("state-changed-by-"+c.Bad, "parameters changed by a Fit that panicked: %+v %+v %+v", nm, ex, lp)
 			}
 		}
 	}
@@ -393,7 +413,7 @@ func TestErrPath(t *testing.T) {
 		}
 		switch c.Kind {
 		case "Categorical":
-			c.Bad = rapid.SampledFrom([]string{"reweightall-negative", "reweightall-negative", "reweightall-length", "reweight-negative", "reweight-index"}).Draw(t, "bad")
+			c.Bad = rapid.SampledFrom([]string{"reweightall-negative", "reweightall-negative", "reweightall-length", "reweight-negative", "reweight-index", "reweightall-zero-total", "reweight-zero-total"}).Draw(t, "bad")
 		case "Weighted":
 			c.Bad = rapid.SampledFrom([]string{"reweightall-length", "reweight-index"}).Draw(t, "bad")
 		default:
